@@ -24,6 +24,7 @@ import (
 	"os"
 	"reflect"
 	"sort"
+	"strings"
 	"sync"
 	"time"
 	"unicode/utf8"
@@ -46,6 +47,9 @@ type c02Case struct {
 	Seed    uint64 `json:"seed"`
 	// the protected header's b64 setting contradicts the message's (Sign must refuse)
 	Mismatch bool `json:"mismatch,omitempty"`
+	// first signer uses a large RSA key of this many bits (signature sizes around the buffer
+	// boundaries of jwt.Sign: 512 raw bytes are reserved)
+	RSABits int `json:"rsabits,omitempty"`
 }
 
 var (
@@ -201,6 +205,16 @@ func c02BuildHeader(set, alg, kid string, nb64 bool, pubKey *jwk.Key) c02Hdr {
 			}
 			return ""
 		})
+	case "bighdr": // a header of more than 64 KiB
+		big := strings.Repeat("0123456789abcdef", 4200)
+		h.Raw["x-big"] = big
+		raw["x-big"] = big
+		checks = append(checks, func(g *jws.Header) string {
+			if g.Raw["x-big"] != big {
+				return "x-big"
+			}
+			return ""
+		})
 	case "unreg":
 		v := map[string]any{"a": []any{json.Number("1"), "two", nil, true}, "ü": "ñ"}
 		h.Raw["x-unregistered"] = v
@@ -277,6 +291,9 @@ func c02Exec(c *vf.Ctx, d *vf.Driver, cs c02Case) {
 	payload := c02Payload(cs.Payload, r)
 	if cs.Form == "jwt" {
 		payload = []byte(fmt.Sprintf(`{"aud":["a","b"],"exp":1800000000,"iat":1650000000,"iss":"joe","jti":"id-%d","nbf":1600000000,"sub":"s","x-custom":{"a":[1,"two",null,true],"ü":"ñ"}}`, r.Intn(1000)))
+		if cs.Payload == "large" { // claims of more than 64 KiB
+			payload = []byte(fmt.Sprintf(`{"exp":1800000000,"iss":"joe","x-big":"%s"}`, strings.Repeat("claims-0123456789", 4000)))
+		}
 	}
 	nSigners := map[string]int{"general2": 2, "general4": 4}[cs.Form]
 	if nSigners == 0 {
@@ -292,6 +309,9 @@ func c02Exec(c *vf.Ctx, d *vf.Driver, cs c02Case) {
 			a = c01RealAlgs()[(cs.KeyN+7*i)%14]
 		}
 		k := c01KeyFor(a, cs.KeyN+i)
+		if cs.RSABits > 0 && i == 0 && (a.Family == "rs" || a.Family == "ps") {
+			k = c01BigRSA(cs.RSABits)
+		}
 		kid := fmt.Sprintf("key-%d", i)
 		pub, _ := c01GoatKey(c01KeyRef{Idx: k.Idx, Variant: "pub"}).(*jwk.Key)
 		set := cs.Hdr
@@ -721,7 +741,7 @@ func c02Grid(c *vf.Ctx) []c02Case {
 		for _, f := range forms {
 			for _, p := range payloads {
 				for _, h := range hdrs {
-					if f.form == "jwt" && (p != "ascii" || h == "unprot") {
+					if f.form == "jwt" && ((p != "ascii" && p != "large") || h == "unprot") {
 						continue
 					}
 					if h == "unprot" && f.form == "compact" {
@@ -731,6 +751,32 @@ func c02Grid(c *vf.Ctx) []c02Case {
 					grid = append(grid, c02Case{Alg: a.Name, Form: f.form, NB64: f.nb64, Payload: p, Hdr: h, KeyN: n, Seed: uint64(n)})
 				}
 			}
+		}
+	}
+	// signature sizes around the buffer boundaries of jwt.Sign (512 raw bytes reserved: 4096-bit RSA
+	// fits exactly, 4104 bits is the first that does not), through every JWT/JWS path; and headers
+	// of more than 64 KiB
+	bitsList := []int{4096, 4104, 4608}
+	if !c.Quick() {
+		bitsList = append(bitsList, 8192)
+	}
+	for _, bits := range bitsList {
+		for _, a := range []string{"RS256", "PS512"} {
+			for _, f := range forms {
+				for _, p := range []string{"ascii", "large"} {
+					if f.nb64 && f.form != "compact" {
+						continue
+					}
+					n++
+					grid = append(grid, c02Case{Alg: a, Form: f.form, NB64: f.nb64, Payload: p, Hdr: "plain", KeyN: n, Seed: uint64(30000 + n), RSABits: bits})
+				}
+			}
+		}
+	}
+	for _, a := range []string{"HS256", "RS256", "ES256", "EdDSA", "PS384", "ES256K"} {
+		for _, f := range forms {
+			n++
+			grid = append(grid, c02Case{Alg: a, Form: f.form, NB64: f.nb64, Payload: "ascii", Hdr: "bighdr", KeyN: n, Seed: uint64(31000 + n)})
 		}
 	}
 	// probes of two corners of the quantifier (own violation classes)
@@ -797,6 +843,8 @@ func runC02(c *vf.Ctx) {
 			}
 		}
 	})
+	// key-object histories (one sig.SigningKey object reused across calls)
+	c01RunHist(c, "C02", func(int) bool { return true })
 	// JWT time claims: sequential (the parser clock is process-global)
 	if d, err := vf.StartDriver(); err == nil {
 		tcs := c02TimeCases(c)
@@ -820,9 +868,15 @@ func replayC02(c *vf.Ctx, data json.RawMessage) {
 		Shapes string `json:"shapes"`
 		Kind   string `json:"kind"`
 		Time   string `json:"time_case"`
+		Hist   string `json:"hist"`
 	}
 	json.Unmarshal(data, &probe)
 	switch {
+	case probe.Hist != "":
+		var hc c01HistCase
+		if json.Unmarshal(data, &hc) == nil {
+			c01ExecHist(c, d, hc)
+		}
 	case probe.Time != "":
 		var tc c02TimeCase
 		if json.Unmarshal(data, &tc) == nil {
